@@ -25,13 +25,13 @@ pub struct DecState {
 
 impl DecState {
 	/// Waits (logically: by observing hook hits, not by sleeping a fixed time) until the decoder has
-	/// either filled its ring buffer (a `dec.wait` hit after `since`) or ended. Returns false on timeout
+	/// either filled its ring buffer (a `dec.wait` hit after `since`), ended or failed. Returns false on timeout
 	/// (the case is then inconclusive).
 	pub fn wait_ahead(&self, timeout: Duration) -> bool {
 		let w0 = self.waits.load(Ordering::SeqCst);
 		let t0 = Instant::now();
 		loop {
-			if self.ends.load(Ordering::SeqCst) > 0 || self.waits.load(Ordering::SeqCst) > w0 + 1 {
+			if self.ends.load(Ordering::SeqCst) > 0 || self.errors.load(Ordering::SeqCst) > 0 || self.waits.load(Ordering::SeqCst) > w0 + 1 {
 				return true;
 			}
 			if t0.elapsed() > timeout {
